@@ -292,6 +292,8 @@ pub fn rule_field(rule: Option<Rule>, name: &str) -> String {
 
 /// Apply a case rule to a PascalCase variant name; enums default to snake_case.
 pub fn rule_variant(rule: Option<Rule>, name: &str) -> String {
+    // the `r#` of a raw identifier is spelling, not part of the variant's name
+    let name = name.strip_prefix("r#").unwrap_or(name);
     let snake = |s: &str| -> String {
         let mut out = String::new();
         for (i, ch) in s.chars().enumerate() {
